@@ -196,7 +196,7 @@ func (w *srcw) e(x Expr) string { return Src(x, w.lay.Style) }
 
 // quoteAttr writes an expression inside a double-quoted attribute value.
 func quoteAttr(s string) string {
-	return `"` + strings.NewReplacer(`\`, `\\`, `"`, `\"`).Replace(s) + `"`
+	return `"` + strings.NewReplacer(`\`, `\\`, `"`, `\"`, "\n", `\n`, "\t", `\t`).Replace(s) + `"`
 }
 
 func (w *srcw) nodes(ns []Node) {
